@@ -15,6 +15,9 @@ CHECKS = {
  "C08": ("proof", "Lean 4 model over Q of the parameter loop of _get_wyckoff_sets (reading rule and first tolerance translated from the AST): params_sound for every table/atoms/cell/tolerance (accepted parameters reproduce an atom and every e_k(W)+t_c is matched), repSolvable_all by kernel evaluation over all 1 731 positions with the rule the source uses now, wrap range, flag_iff. Correspondence: synthetic complete/displaced/incomplete orbits through the real _get_wyckoff_sets; end-to-end table-built crystals.",
          STD_NOTE + "translators gen_tables/gen_wyckoff_rule; completeness for exact orbits is covered by repSolvable_all + act_add_int + the correspondence on complete orbits, not by one end-to-end theorem; float evaluation away from tolerance boundaries.",
          "Lean 4 proof (model soundness + kernel-checked table predicate) + correspondence", "DESIGN.md §6 C08"),
+ "C10": ("proof", "Lean 4 model over Q of extend_system / CellList / get_displacement_tensor. Proved for ALL inputs: ceil(ext/h) from squares is the least n with n^2 >= ext^2/h^2; no image within the extension of a point of the cell needs more copies than are taken (extend_complete_axis: Cauchy-Schwarz with the reciprocal vector); the 27-bin search returns exactly the stored points within the cutoff (query_exact); every finite entry is a genuine image with exact displacement/distance and is the minimum over all images seen (pairEntry_sound / _is_min / _none_iff). Correspondence against the C++ rebuilt from /repo on dyadic inputs + brute-force lattice-sum oracle.",
+         STD_NOTE + "hand-written model tied by differential testing; floating-point rounding inside ceil, sqrt and bin indices is outside the model (inputs are dyadic so that distance comparisons are exact).",
+         "Lean 4 proof over an exact-arithmetic model + correspondence with the rebuilt C++", "DESIGN.md §6 C10"),
  "C12": ("proof", "Lean 4: the five centring matrices are translated from the AST of _get_primitive_system and proved (decide +kernel over all 230 groups) to be bases of Z^3 + the group's centring translations with determinant 1/m (primitivity, volume ratio for every cell by volume_ratio); np.unique first-index selection modelled and the (letter, element) count ratio proved for all lists by induction. Correspondence drives _get_primitive_system with synthetic systems; end-to-end crystals of every centring type with an independent spglib run on the primitive system.",
          STD_NOTE + "tools/gen_centring.py, tools/gen_tables.py; hypotheses S2/S3 about spglib's mappings (each primitive label exactly m times, equal label => equal class) are monitored end to end, not proved.",
          "Lean 4 proof (kernel-checked centring lattices + list induction) + correspondence", "DESIGN.md §6 C12"),
@@ -24,6 +27,9 @@ CHECKS = {
  "C15": ("proof", "Lean 4: the scan model isChiral on integer matrices, det multiplicativity and basis invariance (any invertible integer basis change, hence any rational one), and by kernel evaluation over the translated reference operations: no improper operation exactly for the 65 Sohncke types. Correspondence: synthetic spglib datasets for all 530 Hall numbers x random unimodular bases, the operations the code actually scans are recorded and fed to the model; end-to-end crystals with supercell/shear/rotation/permutation presentations.",
          STD_NOTE + "reference operations from spglib's Hall database; which operations the code scans is observed (np.linalg.det recorder), not proved; spglib's detection of the group is monitored end to end.",
          "Lean 4 proof + recorded-scan correspondence", "DESIGN.md §6 C15"),
+ "C16": ("proof", "Lean 4 (same model as C10): the extended system lists exactly the images with |n_k| <= copies_k, each once, originals first, no offset on non-periodic axes (extended_entries / extended_contains_all / multipliers_once_originals_first), which by copies_suffice are all images within the extension of any point of the cell; query_exact: a query returns precisely the stored images with d^2 <= cutoff^2 with exact displacement; match_spec: vacancy iff nothing within tolerance, otherwise a nearest image. Correspondence on extend/query/match (degenerate cells for extend) + brute-force image enumeration.",
+         STD_NOTE + "hand-written model tied by differential testing; float rounding in ceil/sqrt/bin index not modelled.",
+         "Lean 4 proof over an exact-arithmetic model + correspondence with the rebuilt C++", "DESIGN.md §6 C16"),
  "C19": ("proof", "Lean 4 theorems over the preset definitions translated from get_radii's AST and ASE's tables (decide +kernel over Z=1..103 plus general lemmas for all tables); exhaustive correspondence model vs real function; consumer equality sampled.",
          STD_NOTE + "tools/gen_radii.py, IEEE comparison model R.ne/R.eq; consumer structure (callers use only get_radii's result) is sampled, not proved.",
          "Lean 4 proof over AST-translated model + exhaustive correspondence", "DESIGN.md §6 C19"),
